@@ -112,7 +112,7 @@ def gen_small(rng):
     nt = 1 + rng.below(2)
     threads = [[] for _ in range(nt)]
     nops = 2 + rng.below(2 if nk == 3 else 3)
-    use_v = rng.chance(1, 8)
+    use_v = rng.chance(1, 4)
     for _ in range(nops):
         t = rng.below(nt)
         r = rng.below(10)
@@ -124,7 +124,9 @@ def gen_small(rng):
             i, j = rng.choice(toks)
             threads[t].append("K%d.%d" % (i, j))
         elif use_v:
-            threads[t].append("V%d" % rng.below(2))
+            threads[t].append("V%d" % rng.below(2))     # store to the word, then (mostly) the wake that goes with it
+            if rng.chance(3, 4):
+                threads[t].append(rng.choice(["WA", "WA", "W1"]))
         else:
             threads[t].append("W1")
     for t in range(nt):
@@ -180,6 +182,11 @@ def gen_big(rng):
             o = "Y"
         threads[t].insert(pos, o)
     ntok_first = len([1 for _, ops in coros if ops[0] in ("w1t",)])
+    if rng.chance(1, 4):                                  # word change + wake racing with waiters that register
+        t = rng.below(nt)
+        pos = rng.below(len(threads[t]) + 1)
+        threads[t][pos:pos] = ["V0", rng.choice(["WA", "WA", "W1"])]
+        ntok_first = 0                                    # tokens may never be published: no Q
     for t in range(nt):
         if ntok_first and rng.chance(1, 2):
             threads[t].insert(0, "Q%d" % (1 + rng.below(ntok_first)))
@@ -199,6 +206,10 @@ DIRECTED = [
     ("d.w1cancel", "0:w1t;0:w1t", "Q2,K0.0,K1.0|Q2,W1,W1", 60),
     ("d.wareuse", "0:w1t,w1;0:w1t,w1;1:w1t", "Q3,WA", 120),
     ("d.wareuse2", "0:w1t,w1t;1:w1t;0:w1t", "Q3,WA,W1|Q3,K1.0", 60),
+    # store + wake racing with waiters that are registering (the Y's let the coroutines reach add_awaiter first)
+    ("d.lostwake", "0:w1;1:w1;0:w1t", "Y,Y,Y,Y,V0,WA", 60),
+    ("d.lostwake2", "0:w1,w1;1:w1", "Y,Y,Y,V0,WA|W1", 40),
+    ("d.lostwake3", "0:w1t,w1;1:w1", "Q1,W1,Y,V0,WA", 40),
     ("d.race1", "0:w1t", "Q1,K0.0|Q1,W1", 30),
     ("d.race2", "0:w1t;1:w1t", "Q2,K0.0,W1|Q2,WA,K1.0", 40),
     ("d.history", "0:w1t,w1t,w1t", "Q1,W1,Q2,K0.1,Q3,WA|K0.0,K0.2", 30),
@@ -210,13 +221,14 @@ DIRECTED = [
 # programs for the variant driver (scheduling point after every unlock of futex.cpp, freed memory poisoned)
 DIRECTED_V = [
     ("cbrace", "0:w1t;1:w1t", "W1,Y,W1,Y,W1,Y,W1,Y,W1,W1|Y,WA,Y,WA,Y,WA", 320),
+    ("lostwake", "0:w1;1:w1;0:w1t", "Y,Y,Y,Y,V0,WA", 40),
     ("w1cancel", "0:w1t;0:w1t", "Q2,K0.0,K1.0|Q2,W1,W1", 40),
     ("wareuse", "0:w1t,w1;0:w1t,w1;1:w1t", "Q3,WA", 60),
     ("race2", "0:w1t;1:w1t", "Q2,K0.0,W1|Q2,WA,K1.0", 40),
     ("history", "0:w1t,w1t,w1t", "Q1,W1,Q2,K0.1,Q3,WA|K0.0,K0.2", 30),
 ]
-SMALL_DIRECTED = {"d.mismatch", "d.w1cancel", "d.wareuse", "d.race1", "d.race2", "d.history"}
-MON = ["once", "acct", "exec", "value", "nosusp", "w1", "wall", "leak", "stranded", "cbafter"]
+SMALL_DIRECTED = {"d.lostwake", "d.lostwake2", "d.lostwake3", "d.mismatch", "d.w1cancel", "d.wareuse", "d.race1", "d.race2", "d.history"}
+MON = ["once", "acct", "exec", "value", "nosusp", "w1", "wall", "leak", "stranded", "cbafter", "lostwake"]
 WHAT = {"once": "a co_await returned twice / a coroutine was resumed while running / a token cancelled twice",
         "acct": "resumed futex suspensions != wake_one + wake_all results + successful cancels",
         "exec": "a continuation ran outside the executor its coroutine is bound to",
@@ -226,6 +238,8 @@ WHAT = {"once": "a co_await returned twice / a coroutine was resumed while runni
         "wall": "wake_all left a waiter that was queued when it began linked or untaken",
         "leak": "deposit-box slots still in use after every coroutine finished",
         "stranded": "a suspended coroutine was never resumed although wake_all ran after it was queued",
+        "lostwake": "a coroutine is suspended on a futex whose word differs from its expected value although a wake_all "
+                    "began after the last store to the word (compare and enqueue of add_awaiter not atomic: lost wakeup)",
         "cbafter": "await_suspend fetched the on_suspend callback from an awaitable the continuation had already destroyed"}
 
 
@@ -346,6 +360,13 @@ def main(argv):
             states += int(f.get("states", 0))
             trans += int(f.get("trans", 0))
             model_sets[pid] = (set(l.split("outcomes=", 1)[1].split(";")), f.get("trunc") == "true")
+            if int(f.get("bad", "0")) > 0:
+                prog = [p for p in progs if p[0] == pid][0]
+                chk.violate("model-bad", "the model of the regenerated code reaches a state in which a coroutine that is not "
+                            "suspended is resumed, or a node is queued while the word does not match (lost wakeup), for "
+                            "coroutines %s threads %s: %s" % (prog[1], prog[2], l[:200]),
+                            {"level": "model", "coroutines": prog[1], "threads": prog[2], "small": True, "seed": 1,
+                             "strategy": 0, "workers": 2})
     chk.log("model exploration done: %d states" % states)
     validated = 0
     reported = set()
